@@ -5,8 +5,8 @@ import json
 import os
 HERE = os.path.dirname(os.path.dirname(os.path.abspath(__file__)))
 st = json.load(open(os.path.join(HERE, 'seeded', 'STRENGTHENED.json')))
-print('| seeded change | breaks | detected by (rules) | history |')
-print('|---|---|---|---|')
+import sys
+lines = ['| seeded change | breaks | detected by (rules) | history |', '|---|---|---|---|']
 n = miss = 0
 for d in sorted(glob.glob(os.path.join(HERE, 'seeded', '*', 'meta.json'))):
     m = json.load(open(d))
@@ -15,5 +15,14 @@ for d in sorted(glob.glob(os.path.join(HERE, 'seeded', '*', 'meta.json'))):
     det = ', '.join(m.get('detecting_rules') or []) or ', '.join(m.get('detected_by') or []) or '**missed**'
     if not (m.get('detected_by')):
         miss += 1
-    print('| %s | %s | %s | %s |' % (sid, m.get('property'), det, st.get(sid, 'caught by the rules as first written')))
-print('\n%d seeded changes, %d detected' % (n, n - miss))
+    lines.append('| %s | %s | %s | %s |' % (sid, m.get('property'), det, st.get(sid, 'caught by the rules as they stood')))
+lines.append('')
+lines.append('%d seeded changes, %d detected by the current checks.' % (n, n - miss))
+if '--inject' in sys.argv:
+    p = os.path.join(HERE, 'DESIGN.md')
+    t = open(p).read()
+    a = t.index('<!-- SEED-TABLE-BEGIN -->') + len('<!-- SEED-TABLE-BEGIN -->')
+    b = t.index('<!-- SEED-TABLE-END -->')
+    open(p, 'w').write(t[:a] + '\n' + '\n'.join(lines) + '\n' + t[b:])
+else:
+    print('\n'.join(lines))
